@@ -1,3 +1,4 @@
+from common import guarded
 """C04  define_moments! estimators of any order equal the exact central moments.  Engine RS + VL."""
 from math import comb
 import terms as tm
@@ -84,13 +85,13 @@ def run(tier, seed):
     obs = pr.obs
     import envelope
     acc6 = ["mean"] + [["central_moment", p] for p in range(2, 7)] + [["standardized_moment", p] for p in range(3, 7)]
-    obs += envelope.guard_moments("C04", "M6", acc6, "define_moments!(_, 6) (add-only histories)")
-    obs += envelope.guard_moments("C04", "Moments4", ["mean"] + [["central_moment", p] for p in range(2, 5)] + [["standardized_moment", p] for p in (3, 4)],
-                                  "define_moments!(_, 4) = average::Moments4 (add-only histories)")
-    obs += vl.run_lemmas("C04", ["lemma_fold", "swap", "realizable", "bridge"])
+    obs += guarded("C04.engine.envelope.guard_moments@L87", lambda: envelope.guard_moments("C04", "M6", acc6, "define_moments!(_, 6) (add-only histories)"))
+    obs += guarded("C04.engine.envelope.guard_moments@L88", lambda: envelope.guard_moments("C04", "Moments4", ["mean"] + [["central_moment", p] for p in range(2, 5)] + [["standardized_moment", p] for p in (3, 4)],
+                                  "define_moments!(_, 4) = average::Moments4 (add-only histories)"))
+    obs += guarded("C04.engine.vl.run_lemmas@L90", lambda: vl.run_lemmas("C04", ["lemma_fold", "swap", "realizable", "bridge"]))
     # the binomial-coefficient iterator shared by add and merge of every order: extracted and verified by Verus for EVERY n
     import verus_units
-    obs += verus_units.iterbinomial_obligations("C04")
+    obs += guarded("C04.engine.verus_units.iterbinomial_obligations@L93", lambda: verus_units.iterbinomial_obligations("C04"))
     meta = {
         "level": "proof",
         "checker_cmd": "./check C04 (rsx expand define_moments_common! -> RS executor -> sympy / z3 QF_NRA; verus history.rs)",
